@@ -3,7 +3,9 @@ package checks
 import (
 	"bytes"
 	"fmt"
+	"net"
 	"strings"
+	"sync/atomic"
 	"time"
 
 	"github.com/emersion/go-sasl"
@@ -268,6 +270,49 @@ func checkParams(line string, mask int) string {
 	return ""
 }
 
+// ---- package-level SendMail: a hostile address is refused before anything is dialled ---------------------------------
+
+func evalC15SendMail(which string) *h.Finding {
+	ln, err := net.Listen("tcp", "127.0.0.1:0")
+	if err != nil {
+		return nil // no loopback in this sandbox: nothing to judge
+	}
+	defer ln.Close()
+	var accepted atomic.Int32
+	go func() {
+		for {
+			c, err := ln.Accept()
+			if err != nil {
+				return
+			}
+			accepted.Add(1)
+			c.Close()
+		}
+	}()
+	from, to := "sender@a.example", []string{"good@b.example", "second@b.example"}
+	switch which {
+	case "from":
+		from = "sender@a.example\r\nRSET"
+	case "first-rcpt":
+		to[0] = "x@b.example\r\nDATA"
+	case "second-rcpt":
+		to[1] = "x@b.example\nRSET"
+	}
+	serr := smtp.SendMail(ln.Addr().String(), nil, from, to, strings.NewReader("body\r\n"))
+	ln.Close()
+	if serr == nil {
+		return h.F("c15-cannot-fit-not-refused", "SendMail with a CR/LF in the %s returned nil", which)
+	}
+	if n := accepted.Load(); n != 0 {
+		return h.F("c15-cannot-fit-not-refused", "SendMail with a CR/LF in the %s returned the local error %v only after it had connected to the server (%d connection(s)): a value that cannot be sent is refused with nothing written", which, serr, n)
+	}
+	return nil
+}
+
+func init() {
+	h.RegisterReplayer("c15-sendmail", func(m map[string]string) *h.Finding { return evalC15SendMail(m["which"]) })
+}
+
 // ---- hostile strings ------------------------------------------------------------------
 
 type C15StrCase struct {
@@ -413,7 +458,7 @@ func C15(tier string) int {
 		strLen = 5
 	}
 	alpha := []byte{'\r', '\n', 0, ' ', '<', '>', 'a'}
-	run.Rule = fmt.Sprintf("(a) ALL 2^7 subsets of advertised extensions %v x ALL 2^6 subsets of MailOptions fields (Auth as an identity and as the empty string) (and 2^3 of RcptOptions) against a scripted server, judged after the first EHLO and after a second EHLO (Reset) that advertises a different subset (complement and shifted subsets), and against a server that refuses EHLO so that the client falls back to HELO (before or after a normal EHLO); (b) ALL strings of <=%d octets over {CR,LF,NUL,SP,'<','>','a'} in every string-typed argument (Hello, Verify, Mail from, Rcpt to, EnvelopeID, Auth, ORCPT rfc822/utf-8, SASL mechanism name, NOTIFY elements alone and around valid keywords), Verify/Mail also as the very first call on the client (nothing, not even the greeting, may be written for a value with CR/LF). Octets written by each call are taken from the raw connection log. Distinct by construction; non-trivial = a parameter is requested that is not offered / the string contains CR, LF or NUL. Oracle: <=1 CRLF-terminated line per call and no bare CR/LF; CR/LF in an argument => local error, zero octets; every parameter on the wire is in the most recent EHLO reply; REQUIRETLS/SMTPUTF8 requested but not offered => local error.", c15Exts, strLen)
+	run.Rule = fmt.Sprintf("(a) ALL 2^7 subsets of advertised extensions %v x ALL 2^6 subsets of MailOptions fields (Auth as an identity and as the empty string) (and 2^3 of RcptOptions) against a scripted server, judged after the first EHLO and after a second EHLO (Reset) that advertises a different subset (complement and shifted subsets), and against a server that refuses EHLO so that the client falls back to HELO (before or after a normal EHLO); (b) ALL strings of <=%d octets over {CR,LF,NUL,SP,'<','>','a'} in every string-typed argument (Hello, Verify, Mail from, Rcpt to, EnvelopeID, Auth, ORCPT rfc822/utf-8, SASL mechanism name, NOTIFY elements alone and around valid keywords), the hostile octets also 1990..5000 octets into a value and behind IPv6 zones / address literals; Verify/Mail also as the very first call on the client (nothing, not even the greeting, may be written for a value with CR/LF). Octets written by each call are taken from the raw connection log. Distinct by construction; non-trivial = a parameter is requested that is not offered / the string contains CR, LF or NUL. Oracle: <=1 CRLF-terminated line per call and no bare CR/LF; CR/LF in an argument => local error, zero octets; every parameter on the wire is in the most recent EHLO reply; REQUIRETLS/SMTPUTF8 requested but not offered => local error.", c15Exts, strLen)
 	var ecases []C15ExtCase
 	for m1 := 0; m1 < 128; m1++ {
 		for opts := 0; opts < 64; opts++ {
@@ -445,6 +490,14 @@ func C15(tier string) int {
 		}
 	})
 	run.Outcome("ext-ok")
+	for _, which := range []string{"from", "first-rcpt", "second-rcpt"} {
+		f := evalC15SendMail(which)
+		run.Eval(true)
+		if f != nil {
+			run.Violate("c15-sendmail", map[string]string{"which": which}, f, func() *h.Finding { return evalC15SendMail(which) })
+			run.Outcome("violation:" + f.Sig)
+		}
+	}
 	var scases []C15StrCase
 	enumStrings(alpha, strLen, func(s []byte) {
 		for _, a := range []string{"hello", "verify", "from", "to", "envid", "auth", "orcpt-rfc822", "orcpt-utf8", "sasl-mech", "notify", "notify-kw"} {
@@ -454,6 +507,18 @@ func C15(tier string) int {
 			scases = append(scases, C15StrCase{Arg: a, S: string(s), Fresh: true})
 		}
 	})
+	// the hostile octets far into a long value (beyond any line-length consideration), and behind things that make a value
+	// look trustworthy: an IPv6 address with a zone, an address literal, a long atom
+	for _, pre := range []string{strings.Repeat("a", 1990), strings.Repeat("a", 2000), strings.Repeat("a", 2001), strings.Repeat("b", 5000), "fe80::1%eth0", "[192.0.2.1]", "[IPv6:2001:db8::1%25x", "192.0.2.1", "::1%"} {
+		for _, hostile := range []string{"\r\nRSET", "\nRSET", "\rRSET", "\r\n", "\x00"} {
+			for _, a := range []string{"hello", "verify", "from", "to", "sasl-mech"} {
+				scases = append(scases, C15StrCase{Arg: a, S: pre + hostile}, C15StrCase{Arg: a, S: pre + hostile + "]"})
+				if a == "verify" || a == "from" {
+					scases = append(scases, C15StrCase{Arg: a, S: pre + hostile, Fresh: true})
+				}
+			}
+		}
+	}
 	h.ParallelFor(len(scases), func(i int) {
 		c := scases[i]
 		f := evalC15Str(c)
